@@ -102,7 +102,7 @@ def rec_lines(text):
     out = []
     for raw in text.split('\n'):
         line = ANSI.sub('', raw).rstrip()
-        m = re.match(r'^\(rec\) ([-+!])(\S+)\s+-- (kex|key|enc|mac) algorithm to (remove|append|change)', line)
+        m = re.match(r'^\(rec\) ([-+!])(\S+?)\s*-- (kex|key|enc|mac) algorithm to (remove|append|change)', line)
         if m:
             out.append((m.group(1), m.group(2), m.group(3)))
     return out
